@@ -7,6 +7,15 @@ require golang.org/x/tools v0.29.0
 require golang.org/x/crypto v0.13.0
 
 require (
+	github.com/agl/ed25519 v0.0.0-20170116200512-5312a6153412 // indirect
+	github.com/decred/dcrd/dcrec/secp256k1/v4 v4.0.1 // indirect
 	golang.org/x/mod v0.22.0 // indirect
 	golang.org/x/sync v0.10.0 // indirect
 )
+
+require (
+	github.com/btcsuite/btcd/btcec/v2 v2.3.2
+	github.com/decred/dcrd/dcrec/edwards/v2 v2.0.3
+)
+
+replace github.com/agl/ed25519 => github.com/binance-chain/edwards25519 v0.0.0-20200305024217-f36fc4b53d43
